@@ -942,7 +942,11 @@ fn expr_to_asg_texpr(
         }
 
         synast::Expr::CastExpression(cast) => {
-            let typ = scalar_type_to_type(&cast.scalar_type().unwrap(), true, context);
+            // Casts to array types, eg. `array[int, 3](x)`, are not supported.
+            let Some(scalar_type) = cast.scalar_type() else {
+                return not_impl_expr(context, &cast);
+            };
+            let typ = scalar_type_to_type(&scalar_type, true, context);
             let expr = required_expr_to_asg_texpr(cast.expr(), &cast, context);
             Some(asg::Cast::new(expr, typ).to_texpr())
         }
